@@ -15,6 +15,9 @@ use tokio::sync::{mpsc, Notify};
 
 pub(crate) const MAX_RAW_HEADERS_SIZE: usize = 1024;
 pub(crate) const MAX_HEADERS_NUM: usize = 32;
+/// Interim (1xx) responses and the final response head may be queued back-to-back,
+/// before the session task gets a chance to write any of them out
+const DOWNLOAD_QUEUE_CAPACITY: usize = 8;
 
 pub(crate) struct Http1Codec<IO> {
     state: State,
@@ -89,7 +92,7 @@ where
         transport_stream: IO,
         parent_id_chain: log_utils::IdChain<u64>,
     ) -> Self {
-        let (download_tx, download_rx) = mpsc::channel(1);
+        let (download_tx, download_rx) = mpsc::channel(DOWNLOAD_QUEUE_CAPACITY);
         let (upload_tx, upload_rx) = mpsc::channel(1);
 
         Self {
@@ -248,7 +251,8 @@ where
     }
 
     async fn graceful_shutdown(&mut self) -> io::Result<()> {
-        if let Ok(mut chunk) = self.download_rx.try_recv() {
+        // nothing queued for the client may be lost
+        while let Ok(mut chunk) = self.download_rx.try_recv() {
             self.transport_stream.write_all_buf(&mut chunk).await?;
         }
         self.transport_stream.flush().await?;
